@@ -265,6 +265,25 @@ def run(ck: Checker):
     c05.check_per_run_state(ck, 'C03-7')
     c05.check_marker_identity(ck, 'C03-7')
     # ------------------------------------------------------------------ C03-9
+    ck.rule('C03-11', 'accumulate: "no initializer given" is told apart from every value a user can give (None included, as documented) and from every value the running result can take: the default is a module-level `object()` sentinel and the test is an identity test against it (AGREE)', minimum=1)
+    acc = smod.cls('Stream').method('accumulate')
+    a_ = acc.node.args
+    allp = a_.posonlyargs + a_.args
+    dmap = {x.arg: d for x, d in zip(allp[len(allp) - len(a_.defaults):], a_.defaults)}
+    dmap.update({x.arg: d for x, d in zip(a_.kwonlyargs, a_.kw_defaults) if d is not None})
+    dflt = dmap.get('initializer')
+    sentinels = {t.id for st_ in smod.tree.body if isinstance(st_, ast.Assign) and isinstance(st_.value, ast.Call) and dotted(st_.value.func) == 'object' and not st_.value.args for t in st_.targets if isinstance(t, ast.Name)}
+    probs11 = []
+    if not (isinstance(dflt, ast.Name) and dflt.id in sentinels):
+        probs11.append(f'the default of `initializer` is `{norm_text(dflt) if dflt is not None else "absent"}`, not a private `object()` sentinel: a user who passes that very value (None is documented as a legal initializer) is treated as having passed nothing, and a running result equal to it restarts the accumulation from the raw element')
+    else:
+        tests11 = [n for n in ast.walk(acc.node) if isinstance(n, ast.Compare) and len(n.ops) == 1 and any(isinstance(x, ast.Name) and x.id == dflt.id for x in [n.left] + n.comparators)]
+        if not tests11:
+            probs11.append(f'the sentinel `{dflt.id}` is never tested')
+        for t_ in tests11:
+            if not isinstance(t_.ops[0], (ast.Is, ast.IsNot)):
+                probs11.append(f'L{t_.lineno}: `{norm_text(t_)}` compares with the sentinel by equality: the running value\'s own __eq__ decides')
+    ck.ob('C03-11', acc, dflt if dflt is not None else acc.node, not probs11, '; '.join(probs11) if probs11 else f'`initializer` defaults to the module-level sentinel `{dflt.id}` = object(), tested by identity')
     ck.rule('C03-10', 'class collections given by the user reach isinstance as a class or a tuple: the operator methods whose parameters end up as the second argument of isinstance (filter_exceptions, peek) turn a list into a tuple first (ORIGIN)', minimum=3)
     n10 = c03ops.check_classinfo_params(ck, 'C03-10', smod, 'Stream')
     ck.need(n10 >= 3, f'only {n10} class-collection parameters reaching isinstance found in Stream')
@@ -279,6 +298,12 @@ def run(ck: Checker):
             # before the drain, so that the join of the feeder cannot wedge on a refilled queue (the C05-3/-4 obligations)
             c05.check_stop_flag(ck, 'C03-9', p)
             c05.check_join_safety(ck, 'C03-9', p)
+        # "pulls only a bounded number of source elements beyond k": the hand-off queue is bounded for every legal
+        # parameter value (a size that can be 0 means unbounded -- buffer(1) would read the whole source ahead)
+        if p.label != 'SyncIter':
+            from .c08 import check_queue_bound
+
+            check_queue_bound(ck, 'C03-9', p)
         # the stream ends the way the sequential meaning ends: the producer leaves a terminal item on every exit and the
         # consumer understands every item the producer can send (the C05-1/-2 obligations)
         c05.check_terminal_item(ck, 'C03-9', p)
